@@ -45,6 +45,7 @@ pub fn states(tier: &str) -> Vec<State> {
     }
     // members inherited from / referring to other namespaces
     out.extend(c08::cross_namespace_states(tier));
+    out.extend(c08::three_namespace_chains(tier).into_iter().filter(|s| s.depth == 2));
     out.extend(three_namespace_states());
     out
 }
